@@ -97,6 +97,10 @@ def run_jobs(ctx, label, jobs, shards=16, exe=None):
             for r in rs:
                 if "harness_error" in r:
                     raise Inconclusive(f"E-inproc: {r['harness_error']}")
+                if r.get("status") == "clean" and "output_parse_error" in r:
+                    # the macro returned without a diagnostic but its output is not even a sequence of Rust items
+                    r["status"] = "unparsable-output"
+                    r["panic"] = r["output_parse_error"]
                 out[r["id"]] = r
     missing = [j[0] for j in jobs if j[0] not in out]
     ctx.cov["inproc_expansions"] = ctx.cov.get("inproc_expansions", 0) + 2 * sum(1 for r in out.values() if r.get("status") != "file")
